@@ -163,6 +163,12 @@ func (m *Model) Run(inputs Tensors) (Tensors, error) {
 	}
 
 	for parameterName, parameterTensor := range m.parameters {
+		// A parameter (initializer) that is also a graph input is only the default value of
+		// that input, so a tensor given by the caller takes precedence.
+		if _, ok := inputs[parameterName]; ok && m.hasInput(parameterName) {
+			continue
+		}
+
 		tensors[parameterName] = parameterTensor
 	}
 
